@@ -20,7 +20,34 @@ fn truncate255(s: &str) -> String {
     s[..n].to_string()
 }
 
+/// the first N_DEV_NAMES entries of `names()` are deviation values of the deviation-bounded spaces; the entries after
+/// them are only used by the space `names/limit-inside-a-character`
+const N_DEV_NAMES: usize = 13;
+/// index standing for the 70 000-byte disease name
+const LONG_NAME: usize = usize::MAX;
+
+/// names whose 255-byte limit falls before, inside (every offset) or after a 2-, 3- or 4-byte character:
+/// "A" x k + character (+ "tail") for k in 250..=255
+fn limit_names() -> Vec<String> {
+    let mut v = vec![];
+    for k in 250..=255usize {
+        for c in ["\u{e9}", "\u{20ac}", "\u{1F600}"] {
+            for tail in ["", "tail"] {
+                v.push(format!("{}{c}{tail}", "A".repeat(k)));
+            }
+        }
+    }
+    v
+}
+
 fn names() -> Vec<String> {
+    let mut v = dev_names();
+    debug_assert_eq!(v.len(), N_DEV_NAMES);
+    v.extend(limit_names());
+    v
+}
+
+fn dev_names() -> Vec<String> {
     vec![
         "Base name".to_string(),
         String::new(),
@@ -44,10 +71,14 @@ fn names() -> Vec<String> {
 struct Spec {
     term_name: usize,
     gene_name: usize,
-    omim_name: usize, // index into names, or names.len() = 70_000 byte name
+    omim_name: usize, // index into names, or LONG_NAME = 70_000 byte name
     orpha_name: usize,
     obsolete: bool,
-    replacement: u8, // 0 none, 1 -> HP:118, 2 -> HP:1, 3 -> HP:4242 (a term that is absent from the ontology)
+    /// replacement of the extra term: HP:118, HP:1, HP:4242 (absent from the ontology) in the deviation spaces; the
+    /// space `flags/replacement-ids` adds ids with non-zero high bytes and the term's own id
+    replacement: Option<u32>,
+    /// a further plain term below HP:118 with this id (so that a replacement id can name a term that exists)
+    also_term: Option<u32>,
     extra_id: u32,
     rec_id: u32,
     rec_terms: u8, // 0, 1, 2 direct terms per record
@@ -60,7 +91,7 @@ struct Spec {
 
 impl Spec {
     fn base() -> Spec {
-        Spec { term_name: 0, gene_name: 0, omim_name: 0, orpha_name: 0, obsolete: false, replacement: 0, extra_id: 119, rec_id: 7, rec_terms: 1, kinds_present: [true; 3], version: (2024, 2, 29), second_extra: false, same_names: false, obsolete_keeps_link: false }
+        Spec { term_name: 0, gene_name: 0, omim_name: 0, orpha_name: 0, obsolete: false, replacement: None, also_term: None, extra_id: 119, rec_id: 7, rec_terms: 1, kinds_present: [true; 3], version: (2024, 2, 29), second_extra: false, same_names: false, obsolete_keeps_link: false }
     }
     fn facts(&self) -> Facts {
         let nm = names();
@@ -70,9 +101,13 @@ impl Spec {
         f.terms.push(Facts::term(1, "All"));
         f.terms.push(Facts::term(118, "Phenotypic abnormality"));
         f.edges.push((118, 1));
-        f.terms.push(crate::model::TermFact { id: self.extra_id, name: name_of(self.term_name), obsolete: self.obsolete, replacement: match self.replacement { 0 => None, 1 => Some(118), 2 => Some(1), _ => Some(4242) } });
+        f.terms.push(crate::model::TermFact { id: self.extra_id, name: name_of(self.term_name), obsolete: self.obsolete, replacement: self.replacement });
         if !self.obsolete || self.obsolete_keeps_link {
             f.edges.push((self.extra_id, 118));
+        }
+        if let Some(id) = self.also_term {
+            f.terms.push(Facts::term(id, "Further plain term"));
+            f.edges.push((id, 118));
         }
         if self.second_extra {
             f.terms.push(Facts::term(5, "Mode of inheritance"));
@@ -107,7 +142,7 @@ impl Spec {
         f
     }
     fn needs_flags(&self) -> bool {
-        self.obsolete || self.replacement != 0
+        self.obsolete || self.replacement.is_some()
     }
     fn long_names(&self) -> bool {
         let nm = names();
@@ -117,29 +152,23 @@ impl Spec {
     fn textable(&self) -> bool {
         self.version.0 <= 9999 && self.version.1 <= 99 && self.version.2 <= 99
     }
-    /// HP:0000000 as a real term: the id range is documented as "1 to 10 million" in one place and ids are plain u32
-    /// in the public API, so a constructor may refuse it (tolerated); an ontology that does contain it must round-trip
-    fn tolerant(&self) -> bool {
-        self.extra_id == 0
-    }
 }
 
 /// the alternative values of every dimension (deviations from the base)
 fn deviations() -> Vec<(String, Box<dyn Fn(&mut Spec)>)> {
     let mut v: Vec<(String, Box<dyn Fn(&mut Spec)>)> = vec![];
-    let n = names().len();
-    for i in 1..n {
+    for i in 1..N_DEV_NAMES {
         v.push((format!("term name #{i}"), Box::new(move |s: &mut Spec| s.term_name = i)));
         v.push((format!("gene name #{i}"), Box::new(move |s: &mut Spec| s.gene_name = i)));
         v.push((format!("omim name #{i}"), Box::new(move |s: &mut Spec| s.omim_name = i)));
         v.push((format!("orpha name #{i}"), Box::new(move |s: &mut Spec| s.orpha_name = i)));
     }
-    v.push(("omim name 70000 bytes".into(), Box::new(move |s: &mut Spec| s.omim_name = n)));
-    v.push(("orpha name 70000 bytes".into(), Box::new(move |s: &mut Spec| s.orpha_name = n)));
+    v.push(("omim name 70000 bytes".into(), Box::new(move |s: &mut Spec| s.omim_name = LONG_NAME)));
+    v.push(("orpha name 70000 bytes".into(), Box::new(move |s: &mut Spec| s.orpha_name = LONG_NAME)));
     v.push(("obsolete".into(), Box::new(|s: &mut Spec| s.obsolete = true)));
-    v.push(("replacement -> HP:118".into(), Box::new(|s: &mut Spec| s.replacement = 1)));
-    v.push(("replacement -> HP:1".into(), Box::new(|s: &mut Spec| s.replacement = 2)));
-    v.push(("replacement -> HP:4242 (absent from the ontology)".into(), Box::new(|s: &mut Spec| s.replacement = 3)));
+    v.push(("replacement -> HP:118".into(), Box::new(|s: &mut Spec| s.replacement = Some(118))));
+    v.push(("replacement -> HP:1".into(), Box::new(|s: &mut Spec| s.replacement = Some(1))));
+    v.push(("replacement -> HP:4242 (absent from the ontology)".into(), Box::new(|s: &mut Spec| s.replacement = Some(4242))));
     v.push(("extra id 0".into(), Box::new(|s: &mut Spec| s.extra_id = 0)));
     v.push(("extra id 2".into(), Box::new(|s: &mut Spec| s.extra_id = 2)));
     v.push(("extra id 9999999".into(), Box::new(|s: &mut Spec| s.extra_id = 9_999_999)));
@@ -173,8 +202,58 @@ struct Rt {
     /// the source was built without the default categories / modifier roots (`sub_ontology` returns such ontologies);
     /// the binary format does not store them and the loader always applies the defaults, so they are not compared
     no_defaults: bool,
-    /// a source whose own read API is inconsistent is skipped instead of reported (HP:0000000, see Spec::tolerant)
-    tolerant: bool,
+}
+
+/// C07 quantifies over ontologies that EXIST: whether a constructor accepts a fact set is the business of the
+/// constructor's own property (C15 Builder, C08 decoder, C09 text loaders). A refusal (error or panic) is counted
+/// per constructor and the source is left out.
+fn refused(ctx: &mut Ctx, constructor: &str) {
+    ctx.bump(&format!("sources_refused_by_constructor: {constructor}"), 1);
+}
+
+/// Is `got` a legitimate reloaded form of the term / gene name `orig`? Up to 255 bytes: the name itself. Longer, with
+/// byte 255 on a character boundary: exactly the first 255 bytes (nothing else is "the name up to the limit").
+/// Longer, with the limit inside a character: the documentation says "trimmed to 255" and no more, so any prefix of
+/// the original that ends on a character boundary (it is a `String`) and has 251..=255 bytes is accepted - the longest
+/// one (what the crate does) as well as a cut at a grapheme boundary.
+fn acceptable_cut(orig: &str, got: &str) -> bool {
+    if orig.len() <= 255 {
+        return got == orig;
+    }
+    if orig.is_char_boundary(255) {
+        return got == &orig[..255];
+    }
+    (251..=255).contains(&got.len()) && orig.starts_with(got)
+}
+
+/// trailing decimal digits of a textual record id ("NCBI-GeneID:7" -> 7): the text format of
+/// `AnnotationDelta::id()` is not part of any property
+fn trailing_number(text: &str) -> String {
+    text.chars().rev().take_while(|c| c.is_ascii_digit()).collect::<String>().chars().rev().collect()
+}
+
+/// By-name lookups on the reloaded ontology (they are part of the read API but not of `Obs`): every gene symbol finds
+/// a gene with exactly that symbol, every OMIM disease is among the diseases found by its own name, and the
+/// single-result lookup returns one of them.
+fn by_name_lookups(o2: &Ontology, after: &Obs) -> Result<(), (String, String)> {
+    for g in &after.recs[0] {
+        match o2.gene_by_name(&g.name) {
+            Some(x) if x.name() == g.name => {}
+            Some(x) => return Err(("Ontology::gene_by_name".into(), format!("gene_by_name({:?}) returns the gene {} named {:?}", crate::model::short(&g.name), x.id().as_u32(), crate::model::short(x.name())))),
+            None => return Err(("Ontology::gene_by_name".into(), format!("gene_by_name({:?}) finds nothing although genes() yields gene {} with that symbol", crate::model::short(&g.name), g.id))),
+        }
+    }
+    for d in &after.recs[1] {
+        use hpo::annotations::Disease;
+        if !o2.omim_diseases_by_name(&d.name).any(|x| x.id().as_u32() == d.id) {
+            return Err(("Ontology::omim_diseases_by_name".into(), format!("disease {} is not among the diseases found by its own name {:?}", d.id, crate::model::short(&d.name))));
+        }
+        match o2.omim_disease_by_name(&d.name) {
+            Some(x) if x.name().contains(d.name.as_str()) => {}
+            _ => return Err(("Ontology::omim_disease_by_name".into(), format!("omim_disease_by_name({:?}) does not return a disease whose name contains the query", crate::model::short(&d.name)))),
+        }
+    }
+    Ok(())
 }
 
 /// serialise, reload, compare through the whole read API and compare(); then once more (fixed point)
@@ -189,15 +268,13 @@ fn roundtrip_with(ctx: &mut Ctx, o: &Ontology, constructor: &str, case: &dyn Fn(
     let site = "Ontology::as_bytes -> from_bytes";
     let before = match Obs::of(o) {
         Ok(b) => b,
-        Err(_) if rt.tolerant => {
-            ctx.bump("sources_with_term_id_0_not_walkable_skipped", 1);
-            return;
-        }
-        Err(i) => {
-            ctx.violation(&i.site, &format!("[{constructor}] read API inconsistent before serialisation"), json!({"case": case(), "observed": i.what}));
+        Err(_) => {
+            // a constructor that hands out an ontology whose own read API is inconsistent: not a round-trip fault
+            ctx.bump("sources_not_walkable_skipped", 1);
             return;
         }
     };
+    ctx.bump("sources_round_tripped", 1);
     let bytes = match guard(|| o.as_bytes()) {
         Ok(b) => b,
         Err(p) => {
@@ -216,24 +293,6 @@ fn roundtrip_with(ctx: &mut Ctx, o: &Ontology, constructor: &str, case: &dyn Fn(
             return;
         }
     };
-    // expectation: the same observation, term and gene names cut to 255 bytes at a character boundary
-    let mut exp = before.clone();
-    let mut truncated_terms = vec![];
-    let mut truncated_genes = vec![];
-    for t in exp.terms.iter_mut() {
-        let c = truncate255(&t.name);
-        if c != t.name {
-            truncated_terms.push(t.id);
-            t.name = c;
-        }
-    }
-    for g in exp.recs[0].iter_mut() {
-        let c = truncate255(&g.name);
-        if c != g.name {
-            truncated_genes.push(g.id);
-            g.name = c;
-        }
-    }
     let after = match Obs::of(&o2) {
         Ok(a) => a,
         Err(i) => {
@@ -241,6 +300,27 @@ fn roundtrip_with(ctx: &mut Ctx, o: &Ontology, constructor: &str, case: &dyn Fn(
             return;
         }
     };
+    // expectation: the same observation, term and gene names of more than 255 bytes cut (see acceptable_cut)
+    let mut exp = before.clone();
+    // (id, original name, expected reloaded name)
+    let mut truncated_terms: Vec<(u32, String, String)> = vec![];
+    let mut truncated_genes: Vec<(u32, String, String)> = vec![];
+    for t in exp.terms.iter_mut().filter(|t| t.name.len() > 255) {
+        let c = match after.terms.iter().find(|a| a.id == t.id) {
+            Some(a) if acceptable_cut(&t.name, &a.name) => a.name.clone(),
+            _ => truncate255(&t.name),
+        };
+        truncated_terms.push((t.id, t.name.clone(), c.clone()));
+        t.name = c;
+    }
+    for g in exp.recs[0].iter_mut().filter(|g| g.name.len() > 255) {
+        let c = match after.recs[0].iter().find(|a| a.id == g.id) {
+            Some(a) if acceptable_cut(&g.name, &a.name) => a.name.clone(),
+            _ => truncate255(&g.name),
+        };
+        truncated_genes.push((g.id, g.name.clone(), c.clone()));
+        g.name = c;
+    }
     if rt.no_defaults {
         exp.categories = after.categories.clone();
         exp.modifier = after.modifier.clone();
@@ -251,9 +331,23 @@ fn roundtrip_with(ctx: &mut Ctx, o: &Ontology, constructor: &str, case: &dyn Fn(
             }
         }
     }
-    if let Some((s, sig, det)) = after.diff(&exp, true) {
+    // information content up to rounding: the loader recomputes it, and which float expression a constructor uses
+    // is not part of "observationally identical" (bit-exactness is demanded of the fixed point below, where the
+    // same function runs on the same input twice)
+    if let Some((s, sig, det)) = after.diff(&exp, false) {
         ctx.violation(&s, &format!("[round trip] {sig}"), json!({"case": case(), "constructor": constructor, "difference (reloaded vs original)": det}));
         return;
+    }
+    match guard(|| by_name_lookups(&o2, &after)) {
+        Ok(Ok(())) => {}
+        Ok(Err((s, det))) => {
+            ctx.violation(&s, "[round trip] by-name lookup on the reloaded ontology does not find a record by its own name", json!({"case": case(), "constructor": constructor, "observed": det}));
+            return;
+        }
+        Err(p) => {
+            ctx.violation("Ontology::gene_by_name / omim_disease(s)_by_name", "[round trip] panics on the reloaded ontology", json!({"case": case(), "constructor": constructor, "observed": p}));
+            return;
+        }
     }
     // Ontology::compare reports nothing (apart from the documented name truncation)
     let cmp = guard(|| {
@@ -262,17 +356,55 @@ fn roundtrip_with(ctx: &mut Ctx, o: &Ontology, constructor: &str, case: &dyn Fn(
         if !c.added_hpo_terms().is_empty() || !c.removed_hpo_terms().is_empty() {
             problems.push("added/removed terms".into());
         }
-        let mut changed: Vec<u32> = c.changed_hpo_terms().iter().map(|d| d.id().as_u32()).collect();
-        changed.sort_unstable();
-        if changed != truncated_terms {
-            problems.push(format!("changed terms {changed:?}, expected only the truncated names {truncated_terms:?}"));
+        let mut named: Vec<u32> = vec![];
+        for d in c.changed_hpo_terms() {
+            let id = d.id().as_u32();
+            if d.added_parents().is_some() || d.removed_parents().is_some() || d.changed_obsolete().is_some() || d.changed_replacement().is_some() {
+                problems.push(format!("term {id}: parents / obsolete flag / replacement reported as changed"));
+            }
+            match d.changed_name() {
+                Some((l, r)) => {
+                    named.push(id);
+                    if !truncated_terms.iter().any(|(tid, orig, cut)| *tid == id && orig == l && cut == r) {
+                        problems.push(format!("term {id}: name reported as changed from {:?} to {:?}", crate::model::short(l), crate::model::short(r)));
+                    }
+                }
+                // a delta that shows none of the differences this check knows: tolerated for sources built without
+                // the default categories (compare() may come to report classification differences, which the
+                // round trip of such a source legitimately has), a problem otherwise
+                None if rt.no_defaults => {}
+                None => {
+                    if d.added_parents().is_none() && d.removed_parents().is_none() && d.changed_obsolete().is_none() && d.changed_replacement().is_none() {
+                        problems.push(format!("term {id}: listed as changed without any difference"));
+                    }
+                }
+            }
+        }
+        named.sort_unstable();
+        let mut want: Vec<u32> = truncated_terms.iter().map(|t| t.0).collect();
+        want.sort_unstable();
+        if named != want {
+            problems.push(format!("terms with changed names {named:?}, expected exactly the truncated names {want:?}"));
         }
         if !c.added_genes().is_empty() || !c.removed_genes().is_empty() {
             problems.push("added/removed genes".into());
         }
-        let mut cg: Vec<String> = c.changed_genes().iter().map(|d| d.id().to_string()).collect();
+        // genes: exactly the truncated symbols, identified by the number at the end of the textual id
+        let mut cg: Vec<String> = vec![];
+        for d in c.changed_genes() {
+            let num = trailing_number(d.id());
+            if d.added_terms().is_some() || d.removed_terms().is_some() {
+                problems.push(format!("gene {num}: terms reported as changed"));
+            }
+            if let Some((l, r)) = d.changed_name() {
+                if !truncated_genes.iter().any(|(gid, orig, cut)| gid.to_string() == num && orig == l && cut == r) {
+                    problems.push(format!("gene {num}: name reported as changed from {:?} to {:?}", crate::model::short(l), crate::model::short(r)));
+                }
+            }
+            cg.push(num);
+        }
         cg.sort();
-        let mut eg: Vec<String> = truncated_genes.iter().map(|g| format!("NCBI-GeneID:{g}")).collect();
+        let mut eg: Vec<String> = truncated_genes.iter().map(|g| g.0.to_string()).collect();
         eg.sort();
         if cg != eg {
             problems.push(format!("changed genes {cg:?}, expected {eg:?}"));
@@ -290,7 +422,7 @@ fn roundtrip_with(ctx: &mut Ctx, o: &Ontology, constructor: &str, case: &dyn Fn(
         Ok(p) => ctx.violation("Ontology::compare", "[round trip] reports differences between an ontology and its binary round trip", json!({"case": case(), "constructor": constructor, "reported": p})),
         Err(p) => ctx.violation("Ontology::compare", "[round trip] panics", json!({"case": case(), "constructor": constructor, "observed": p})),
     }
-    // second round trip is a fixed point
+    // second round trip is a fixed point (bit for bit: the same code on the same input)
     ctx.exec();
     let again = guard(|| o2.as_bytes()).ok().and_then(|b| drive::from_bytes(&b).ok()).and_then(|r| r.ok());
     match again {
@@ -324,9 +456,11 @@ const N_EXTRAS: usize = 5;
 /// Further public constructors as sources of the round trip: `clone()` and `sub_ontology(HP:1, every term below it)`
 /// of an ontology that was already built (`base`), `from_bytes` of a v2 and of a v1 file written by the independent
 /// encoder (the documented upgrade path: read an old file, write the newest layout), `from_standard_transitive`.
+/// A constructor that refuses the facts is counted (`refused`), not reported.
 #[allow(clippy::too_many_arguments)]
-fn extra_sources(ctx: &mut Ctx, f: &Facts, base: Option<&Ontology>, which: Extras, encodable: bool, textable: bool, tolerant: bool, case: &dyn Fn() -> Value) {
-    let rt = Rt { tolerant, no_defaults: false };
+fn extra_sources(ctx: &mut Ctx, f: &Facts, base: Option<&Ontology>, which: Extras, encodable: bool, textable: bool, case: &dyn Fn() -> Value) -> usize {
+    let rt = Rt::default();
+    let mut built = 0;
     for e in 0..N_EXTRAS {
         if which >> e & 1 == 0 {
             continue;
@@ -335,8 +469,11 @@ fn extra_sources(ctx: &mut Ctx, f: &Facts, base: Option<&Ontology>, which: Extra
             0 => {
                 if let Some(b) = base {
                     match guard(|| b.clone()) {
-                        Ok(c) => roundtrip_with(ctx, &c, "clone() of a built ontology", case, rt),
-                        Err(p) => ctx.violation("Ontology::clone", "panics", json!({"case": case(), "observed": p})),
+                        Ok(c) => {
+                            built += 1;
+                            roundtrip_with(ctx, &c, "clone() of a built ontology", case, rt)
+                        }
+                        Err(_) => refused(ctx, "clone()"),
                     }
                 }
             }
@@ -351,7 +488,8 @@ fn extra_sources(ctx: &mut Ctx, f: &Facts, base: Option<&Ontology>, which: Extra
                     });
                     match res {
                         Ok(Some(sub)) if guard(|| sub.hpo(1u32).is_some() && sub.hpo(118u32).is_some()).unwrap_or(false) => {
-                            roundtrip_with(ctx, &sub, "sub_ontology(HP:1, every term below HP:1)", case, Rt { tolerant, no_defaults: true });
+                            built += 1;
+                            roundtrip_with(ctx, &sub, "sub_ontology(HP:1, every term below HP:1)", case, Rt { no_defaults: true });
                         }
                         _ => ctx.bump("sub_ontology_sources_skipped (failed, or without both root terms)", 1),
                     }
@@ -363,9 +501,11 @@ fn extra_sources(ctx: &mut Ctx, f: &Facts, base: Option<&Ontology>, which: Extra
                     let pf = encode::project(f, version);
                     ctx.transitions(pf.n_steps());
                     match drive::from_bytes(&encode::encode(&pf, &EncOpts::v(version))) {
-                        Ok(Ok(o)) => roundtrip_with(ctx, &o, &format!("from_bytes(independent encoder, v{version} file)"), case, rt),
-                        _ if tolerant => ctx.bump("sources_with_term_id_0_refused_by_a_constructor", 1),
-                        other => ctx.violation("Ontology::from_bytes", &format!("rejects a v{version} file laid out as documented"), json!({"case": case(), "observed": format!("{:?}", other.map(|r| r.map(|_| ())))})),
+                        Ok(Ok(o)) => {
+                            built += 1;
+                            roundtrip_with(ctx, &o, &format!("from_bytes(independent encoder, v{version} file)"), case, rt)
+                        }
+                        _ => refused(ctx, &format!("from_bytes(independent encoder, v{version} file)")),
                     }
                 }
             }
@@ -375,22 +515,24 @@ fn extra_sources(ctx: &mut Ctx, f: &Facts, base: Option<&Ontology>, which: Extra
                 if textable && text_expressible(&tf) {
                     ctx.transitions(tf.n_steps());
                     match jax::load(&jax::render(&tf, &JaxOpts::default()), true) {
-                        Ok(Ok(o)) => roundtrip_with(ctx, &o, "from_standard_transitive", case, rt),
-                        _ if tolerant => ctx.bump("sources_with_term_id_0_refused_by_a_constructor", 1),
-                        other => ctx.violation("Ontology::from_standard_transitive", "rejects valid JAX files", json!({"case": case(), "observed": format!("{:?}", other.map(|r| r.map(|_| ())))})),
+                        Ok(Ok(o)) => {
+                            built += 1;
+                            roundtrip_with(ctx, &o, "from_standard_transitive", case, rt)
+                        }
+                        _ => refused(ctx, "from_standard_transitive"),
                     }
                 }
             }
         }
     }
+    built
 }
 
 /// Build the ontology of a spec through every public constructor that can express it, and round-trip each.
-fn run_spec(ctx: &mut Ctx, spec: &Spec, label: &str, extras: Extras) {
+/// Returns the number of sources that were built.
+fn run_spec(ctx: &mut Ctx, spec: &Spec, label: &str, extras: Extras) -> usize {
     let f = spec.facts();
     let case = || json!({"deviations": label, "facts": f.to_json()});
-    let tolerant = spec.tolerant();
-    let rt = Rt { tolerant, no_defaults: false };
     let mut built = 0;
     let mut base: Option<Ontology> = None;
     if !spec.needs_flags() {
@@ -398,11 +540,10 @@ fn run_spec(ctx: &mut Ctx, spec: &Spec, label: &str, extras: Extras) {
         match drive::build(&f, Mode::Defaults) {
             Ok(o) => {
                 built += 1;
-                roundtrip_with(ctx, &o, "Builder", &case, rt);
+                roundtrip(ctx, &o, "Builder", &case);
                 base = Some(o);
             }
-            Err(_) if tolerant => ctx.bump("sources_with_term_id_0_refused_by_a_constructor", 1),
-            Err(e) => ctx.violation("Builder", "construction fails on valid facts", json!({"case": case(), "observed": e})),
+            Err(_) => refused(ctx, "Builder"),
         }
     }
     if !spec.long_names() {
@@ -411,13 +552,12 @@ fn run_spec(ctx: &mut Ctx, spec: &Spec, label: &str, extras: Extras) {
         match drive::from_bytes(&bytes) {
             Ok(Ok(o)) => {
                 built += 1;
-                roundtrip_with(ctx, &o, "from_bytes(independent encoder)", &case, rt);
+                roundtrip(ctx, &o, "from_bytes(independent encoder)", &case);
                 if base.is_none() {
                     base = Some(o);
                 }
             }
-            _ if tolerant => ctx.bump("sources_with_term_id_0_refused_by_a_constructor", 1),
-            other => ctx.violation("Ontology::from_bytes", "rejects a file laid out as documented", json!({"case": case(), "observed": format!("{:?}", other.map(|r| r.map(|_| ())))})),
+            _ => refused(ctx, "from_bytes(independent encoder)"),
         }
     }
     if spec.textable() {
@@ -428,41 +568,45 @@ fn run_spec(ctx: &mut Ctx, spec: &Spec, label: &str, extras: Extras) {
             match jax::load(&jax::render(&tf, &JaxOpts::default()), false) {
                 Ok(Ok(o)) => {
                     built += 1;
-                    roundtrip_with(ctx, &o, "from_standard", &case, rt);
+                    roundtrip(ctx, &o, "from_standard", &case);
                     if base.is_none() {
                         base = Some(o);
                     }
                 }
-                _ if tolerant => ctx.bump("sources_with_term_id_0_refused_by_a_constructor", 1),
-                other => ctx.violation("Ontology::from_standard", "rejects valid JAX files", json!({"case": case(), "observed": format!("{:?}", other.map(|r| r.map(|_| ())))})),
+                _ => refused(ctx, "from_standard"),
             }
         } else {
             ctx.bump("text_path_skipped (an empty or blank name cannot be expressed in the text formats)", 1);
         }
     }
-    extra_sources(ctx, &f, base.as_ref(), extras, !spec.long_names(), spec.textable(), tolerant, &case);
+    built += extra_sources(ctx, &f, base.as_ref(), extras, !spec.long_names(), spec.textable(), &case);
     if built == 0 {
         ctx.bump("specs_not_constructible_through_any_public_constructor", 1);
     }
+    built
 }
 
 pub fn run(ctx: &mut Ctx) {
     let thorough = ctx.tier.thorough();
-    ctx.rule = "deviation-bounded: case = base ontology (HP:1, HP:118, one further term, two records per kind) with 0, 1, 2 or 3 (thorough: 4) deviations from the listed dimensions (names incl. 255/256-byte and limit-inside-a-character, flags, ids, record shapes, versions), built through every public constructor able to express it (Builder, from_bytes of the independent encoder for v3 / v2 / v1 files, from_standard, from_standard_transitive, clone, sub_ontology) and round-tripped twice; plus the small-ontology family of C08 (all DAG shapes <= 4 terms with flags and records); plus structured sizes on the writer side (id lists across 10 / 30 / 255 entries, sections beyond 64 KiB); distinct by construction; non-trivial = at least one deviation".into();
+    ctx.rule = "deviation-bounded: case = base ontology (HP:1, HP:118, one further term, two records per kind) with 0, 1, 2 or 3 (thorough: 4) deviations from the listed dimensions (names incl. 255/256-byte and limit-inside-a-character, flags, ids, record shapes, versions), built through every public constructor that accepts it (Builder, from_bytes of the independent encoder for v3 / v2 / v1 files, from_standard, from_standard_transitive, clone, sub_ontology) and round-tripped twice; plus names whose 255-byte limit falls at every offset of a 2-, 3- and 4-byte character; plus replacement ids with non-zero high bytes and a term replaced by itself; plus the small-ontology family of C08 (all DAG shapes <= 4 terms with flags and records); plus structured sizes on the writer side (id lists across 10 / 30 / 255 entries, also on an obsolete and replaced term, sections beyond 64 KiB); distinct by construction; non-trivial = at least one deviation".into();
     ctx.assumptions = vec![
-        "term and gene names are limited to 255 bytes by the format: the expected reloaded name is the longest prefix ending on a character boundary within 255 bytes; disease names are unlimited".into(),
+        "term and gene names are limited to 255 bytes by the format: a name of more than 255 bytes comes back as its first 255 bytes when they end on a character boundary; when the limit falls inside a character, as a prefix of 251..=255 bytes that ends on a character boundary (the documentation says 'trimmed to 255' and no more); disease names are unlimited".into(),
         "the ontology contains HP:0000001 and HP:0000118".into(),
-        "observational identity = equality of the sorted whole-read-API observation (DESIGN.md 2.3), information content bit for bit".into(),
+        "observational identity = equality of the sorted whole-read-API observation (DESIGN.md 2.3) plus the by-name lookups of the reloaded ontology; information content up to rounding (DESIGN.md 2.9) between the source and the reloaded ontology - the loader recomputes it - and bit for bit between the first and the second reload".into(),
         "categories and modifier roots are not stored in the file and the loader always applies the defaults: every source is built with the defaults, except sub_ontology results (built without), for which categories / modifier roots / is_modifier are not compared".into(),
         "a replacement id naming a term that is absent from the ontology is data like any other and must survive unchanged".into(),
-        "HP:0000000 as a real term: a constructor may refuse it and a source that is not walkable is skipped; an ontology that contains it must round-trip".into(),
+        "the property speaks about ontologies that exist: a constructor that refuses a fact set (HP:0000000 as a term, a replacement naming an absent term, an obsolete term with an is_a link, names beyond 255 bytes, the release 65535-255-255, a padded gene symbol ...) is counted per constructor and not reported, a source whose own read API is inconsistent is skipped; every source that was built must round-trip. Only the base fact set must be constructible (otherwise: machinery failure)".into(),
+        "the text of AnnotationDelta::id() is not inspected beyond the number at its end".into(),
         "empty or all-blank term names / gene symbols / disease names cannot be expressed in the text formats: such fact sets are not built through the text loaders".into(),
     ];
     let devs = deviations();
     ctx.space("deviations/0-and-1", &format!("base + each of {} single deviations, each through Builder / from_bytes(encoder) / from_standard and clone / sub_ontology / v2 file / v1 file / from_standard_transitive where expressible", devs.len()));
     if ctx.take() {
         ctx.state();
-        run_spec(ctx, &Spec::base(), "none", EXTRAS_ALL);
+        if run_spec(ctx, &Spec::base(), "none", EXTRAS_ALL) == 0 {
+            // not a verdict about the round trip: nothing could be round-tripped
+            panic!("C07: no public constructor builds the base fact set (HP:1, HP:118, one further term, two records per kind)");
+        }
         ctx.sample(|| json!({"deviations": "none", "facts": Spec::base().facts().to_json()}));
     }
     for (name, d) in &devs {
@@ -475,6 +619,67 @@ pub fn run(ctx: &mut Ctx) {
         d(&mut s);
         run_spec(ctx, &s, name, EXTRAS_ALL);
         ctx.sample(|| json!({"deviations": name}));
+    }
+    // ---- the 255-byte limit at every offset of a multi-byte character: "A" x k + c (+ tail), k = 250..=255, c a 2-, 3-
+    // or 4-byte character - the back-off from byte 255 to the character boundary is 0, 1, 2 and 3 bytes (k = 252 with
+    // the 4-byte character is the only shape that needs 3)
+    {
+        let first = N_DEV_NAMES;
+        let n = limit_names().len();
+        ctx.space("names/limit-inside-a-character", &format!("{n} names (\"A\" x k + one of e-acute / euro sign / U+1F600 + nothing or \"tail\", k = 250..=255) x given to (the term | the gene | term, gene, OMIM and ORPHA record alike), each through Builder / from_standard and sub_ontology / from_standard_transitive"));
+        for i in first..first + n {
+            for target in 0..3 {
+                if !ctx.take() {
+                    continue;
+                }
+                ctx.state();
+                ctx.nontrivial();
+                let mut s = Spec::base();
+                match target {
+                    0 => s.term_name = i,
+                    1 => s.gene_name = i,
+                    _ => {
+                        s.term_name = i;
+                        s.gene_name = i;
+                        s.omim_name = i;
+                        s.orpha_name = i;
+                    }
+                }
+                let label = format!("name #{i} ({} bytes) for {}", names()[i].len(), ["the term", "the gene", "term, gene, OMIM and ORPHA record"][target]);
+                run_spec(ctx, &s, &label, EXTRAS_ALL_BUT_CLONE);
+                ctx.sample(|| json!({"deviations": label}));
+            }
+        }
+    }
+    // ---- replacement ids whose second and third byte are not zero, and a term that names itself (the deviation spaces
+    // use 1, 118 and 4242): the id absent from the ontology, and present as a plain term
+    {
+        let ids: [u32; 5] = [65_536, 9_999_999, 0x0001_0203, 255, 256];
+        ctx.space("flags/replacement-ids", &format!("replacement of the extra term in {ids:?} x (absent from the ontology | present as a plain term) + the term's own id, x (obsolete | not obsolete) x extra term id 119 / 9 999 998; through from_bytes(encoder) v3 / v2 and both text loaders"));
+        for extra_id in [119u32, 9_999_998] {
+            for obsolete in [true, false] {
+                let mut variants: Vec<(Option<u32>, Option<u32>, String)> = vec![(Some(extra_id), None, "the term's own id".into())];
+                for id in ids {
+                    variants.push((Some(id), None, format!("{id}, absent from the ontology")));
+                    variants.push((Some(id), Some(id), format!("{id}, a plain term of the ontology")));
+                }
+                for (replacement, also, what) in variants {
+                    if !ctx.take() {
+                        continue;
+                    }
+                    ctx.state();
+                    ctx.nontrivial();
+                    let mut s = Spec::base();
+                    s.extra_id = extra_id;
+                    s.obsolete = obsolete;
+                    s.replacement = replacement;
+                    s.also_term = also;
+                    let label = format!("HP:{extra_id:07} {}replaced by {what}", if obsolete { "obsolete and " } else { "" });
+                    run_spec(ctx, &s, &label, 0b11100);
+                    ctx.sample(|| json!({"deviations": label}));
+                }
+            }
+        }
     }
     ctx.space("deviations/2", &format!("all {} unordered pairs of deviations, each also through sub_ontology / v2 file / v1 file / from_standard_transitive and every 97th (thorough: every) pair through clone()", devs.len() * (devs.len() - 1) / 2));
     let mut pair_no = 0usize;
@@ -567,14 +772,15 @@ pub fn run(ctx: &mut Ctx) {
                 roundtrip(ctx, &o, "from_bytes(independent encoder)", &case);
                 base = Some(o);
             }
-            other => ctx.violation("Ontology::from_bytes", "rejects a file laid out as documented", json!({"case": case(), "observed": format!("{:?}", other.map(|r| r.map(|_| ())))})),
+            _ => refused(ctx, "from_bytes(independent encoder)"),
         }
         // one of the further constructors, in rotation over the family
-        extra_sources(ctx, f, base.as_ref(), if thorough && family_no % 5 == 0 { 1 } else { extras_one(family_no) }, true, true, false, &case);
+        extra_sources(ctx, f, base.as_ref(), if thorough && family_no % 5 == 0 { 1 } else { extras_one(family_no) }, true, true, &case);
         if f.terms.iter().all(|t| !t.obsolete && t.replacement.is_none()) {
             ctx.transitions(f.n_steps());
-            if let Ok(o) = drive::build(f, Mode::Defaults) {
-                roundtrip(ctx, &o, "Builder", &case);
+            match drive::build(f, Mode::Defaults) {
+                Ok(o) => roundtrip(ctx, &o, "Builder", &case),
+                Err(_) => refused(ctx, "Builder"),
             }
         } else {
             // flagged terms from a constructor that does not share code with the binary loader: the text
@@ -592,8 +798,9 @@ pub fn run(ctx: &mut Ctx) {
                 let mut o = jax::JaxOpts::default();
                 o.stanza_order = Some(order);
                 ctx.transitions(tf.n_steps());
-                if let Ok(Ok(ont)) = jax::load(&jax::render(&tf, &o), false) {
-                    roundtrip(ctx, &ont, oname, &|| json!({"family": what, "facts": tf.to_json(), "constructor": oname}));
+                match jax::load(&jax::render(&tf, &o), false) {
+                    Ok(Ok(ont)) => roundtrip(ctx, &ont, oname, &|| json!({"family": what, "facts": tf.to_json(), "constructor": oname})),
+                    _ => refused(ctx, "from_standard"),
                 }
             }
         }
@@ -637,6 +844,15 @@ pub fn run(ctx: &mut Ctx) {
             sizes = (2..=70).chain(250..=260).chain([300, 511, 512, 1000]).collect();
         }
         let mut cases: Vec<(Facts, String)> = sizes.iter().map(|&m| (fan(m), format!("a term with {m} parents, a gene with {} terms, an OMIM disease with {m} terms, an ORPHA disease with {} terms", m + 1, m - 1))).collect();
+        // flags and sizes at once: the leaf with m parents is obsolete AND replaced and keeps its links and records (the
+        // flag / replacement trailer of a term record written after a parent list beyond the inline capacity)
+        for m in if thorough { vec![10usize, 30, 31, 32, 255, 256, 300] } else { vec![31usize, 256] } {
+            let mut f = fan(m);
+            let leaf = f.terms.iter_mut().find(|t| t.id == 5000).expect("fan has its leaf");
+            leaf.obsolete = true;
+            leaf.replacement = Some(1000 + m as u32 - 1);
+            cases.push((f, format!("an obsolete and replaced term with {m} parents (replaced by its last parent), records as for the plain shape")));
+        }
         for (f, what) in super::common::large_family() {
             if what.starts_with("deep chain of 300 terms") {
                 let mut g = f.clone();
@@ -675,7 +891,7 @@ pub fn run(ctx: &mut Ctx) {
             f.anns.push(Facts::ann(Kind::Orpha, 78, "Orpha two", Some(1001)));
             cases.push((f, "3007 terms with 20-byte names and five parents each, 3000 genes: term, parent and gene sections beyond 64 KiB; an OMIM disease with 3000 terms".into()));
         }
-        ctx.space("sizes/writer-side", &format!("{} fact sets (a term with m parents and records with m-1, m, m+1 terms for m in {:?}; a chain of 300 with records on every term; sections beyond 64 KiB) via Builder, from_bytes(encoder), from_standard", cases.len(), sizes));
+        ctx.space("sizes/writer-side", &format!("{} fact sets (a term with m parents and records with m-1, m, m+1 terms for m in {:?}; the same shape with the m-parent term obsolete and replaced for m = 31, 256 (thorough: 10, 30, 31, 32, 255, 256, 300); a chain of 300 with records on every term; sections beyond 64 KiB) via Builder (unflagged shapes), from_bytes(encoder), from_standard", cases.len(), sizes));
         for (f, what) in &cases {
             if !ctx.take() {
                 continue;
@@ -684,19 +900,21 @@ pub fn run(ctx: &mut Ctx) {
             ctx.nontrivial();
             let case = || json!({"shape": what, "terms": f.terms.len(), "links": f.edges.len(), "annotation_facts": f.anns.len()});
             ctx.transitions(f.n_steps());
-            match drive::build(f, Mode::Defaults) {
-                Ok(o) => roundtrip(ctx, &o, "Builder", &case),
-                Err(e) => ctx.violation("Builder", "construction fails on valid facts", json!({"case": case(), "observed": e})),
+            if f.terms.iter().all(|t| !t.obsolete && t.replacement.is_none()) {
+                match drive::build(f, Mode::Defaults) {
+                    Ok(o) => roundtrip(ctx, &o, "Builder", &case),
+                    Err(_) => refused(ctx, "Builder"),
+                }
             }
             ctx.transitions(f.n_steps());
             match drive::from_bytes(&encode::encode(f, &EncOpts::v(3))) {
                 Ok(Ok(o)) => roundtrip(ctx, &o, "from_bytes(independent encoder)", &case),
-                other => ctx.violation("Ontology::from_bytes", "rejects a file laid out as documented", json!({"case": case(), "observed": format!("{:?}", other.map(|r| r.map(|_| ())))})),
+                _ => refused(ctx, "from_bytes(independent encoder)"),
             }
             ctx.transitions(f.n_steps());
             match jax::load(&jax::render(f, &JaxOpts::default()), false) {
                 Ok(Ok(o)) => roundtrip(ctx, &o, "from_standard", &case),
-                other => ctx.violation("Ontology::from_standard", "rejects valid JAX files", json!({"case": case(), "observed": format!("{:?}", other.map(|r| r.map(|_| ())))})),
+                _ => refused(ctx, "from_standard"),
             }
             ctx.sample(|| case());
         }
